@@ -10,18 +10,18 @@ func FourCC(a, b, c, d byte) uint32 {
 }
 
 // Container FourCC values.
-var (
-	FourCCRIFF = FourCC('R', 'I', 'F', 'F')
-	FourCCWEBP = FourCC('W', 'E', 'B', 'P')
-	FourCCVP8  = FourCC('V', 'P', '8', ' ')
-	FourCCVP8L = FourCC('V', 'P', '8', 'L')
-	FourCCVP8X = FourCC('V', 'P', '8', 'X')
-	FourCCALPH = FourCC('A', 'L', 'P', 'H')
-	FourCCANIM = FourCC('A', 'N', 'I', 'M')
-	FourCCANMF = FourCC('A', 'N', 'M', 'F')
-	FourCCICCP = FourCC('I', 'C', 'C', 'P')
-	FourCCEXIF = FourCC('E', 'X', 'I', 'F')
-	FourCCXMP  = FourCC('X', 'M', 'P', ' ')
+const (
+	FourCCRIFF uint32 = uint32('R') | uint32('I')<<8 | uint32('F')<<16 | uint32('F')<<24
+	FourCCWEBP uint32 = uint32('W') | uint32('E')<<8 | uint32('B')<<16 | uint32('P')<<24
+	FourCCVP8 uint32 = uint32('V') | uint32('P')<<8 | uint32('8')<<16 | uint32(' ')<<24
+	FourCCVP8L uint32 = uint32('V') | uint32('P')<<8 | uint32('8')<<16 | uint32('L')<<24
+	FourCCVP8X uint32 = uint32('V') | uint32('P')<<8 | uint32('8')<<16 | uint32('X')<<24
+	FourCCALPH uint32 = uint32('A') | uint32('L')<<8 | uint32('P')<<16 | uint32('H')<<24
+	FourCCANIM uint32 = uint32('A') | uint32('N')<<8 | uint32('I')<<16 | uint32('M')<<24
+	FourCCANMF uint32 = uint32('A') | uint32('N')<<8 | uint32('M')<<16 | uint32('F')<<24
+	FourCCICCP uint32 = uint32('I') | uint32('C')<<8 | uint32('C')<<16 | uint32('P')<<24
+	FourCCEXIF uint32 = uint32('E') | uint32('X')<<8 | uint32('I')<<16 | uint32('F')<<24
+	FourCCXMP uint32 = uint32('X') | uint32('M')<<8 | uint32('P')<<16 | uint32(' ')<<24
 )
 
 // VP8 format constants.
